@@ -61,6 +61,17 @@ def corpus_cases():
             "decls": [("struct", "All", [("P%d" % i, 1, "p%d" % i) for i in range(7)]),
                       ("iface", "IAll", "IPart3", [M("every", [("in", "All", None, "a")] + [("in", "IPart%d" % i, None, "q%d" % i) for i in range(7)])])]}
     out.append({"files": [main] + incs, "main": "src/main.idl", "idirs": ["inc"]})
+    # the same bare include name in the include directory and next to the main file, with different
+    # contents: which one is loaded is a function of the search order, the same in every run
+    for tag, a, b in (("small_big", [("uint32", 1, "h")], [("uint64", 1, "h"), ("uint64", 1, "g"), ("uint64", 1, "f")]),
+                      ("big_small", [("uint64", 1, "h"), ("uint64", 1, "g"), ("uint64", 1, "f")], [("uint16", 1, "h"), ("uint16", 1, "g")])):
+        out.append({"files": [{"path": "src/main.idl", "includes": ["Types.idl", "More.idl"],
+                               "decls": [("iface", "IClient", None, [M("open", [("in", "Handle", None, "h"), ("in", "uint32", None, "flags"), ("out", "Extra", None, "e")])])]},
+                              {"path": "inc/Types.idl", "includes": [], "decls": [("struct", "Handle", a)]},
+                              {"path": "src/Types.idl", "includes": [], "decls": [("struct", "Handle", b)]},
+                              {"path": "inc/More.idl", "includes": ["Types.idl"], "decls": [("struct", "Extra", [("Handle", 2, "hs")])]},
+                              {"path": "src/More.idl", "includes": [], "decls": [("struct", "Extra", [("uint8", 3, "pad")])]}],
+                    "main": "src/main.idl", "idirs": ["inc"]})
     return out
 
 
